@@ -307,6 +307,11 @@ def rand_sym(rs, m, banded, kind):
     return S * 10 ** rs.uniform(-1, 2)
 
 
+def conv(A, fmt):
+    A = csr_matrix(A)
+    return A.tocoo() if fmt == 'coo' else (A.tocsc() if fmt == 'csc' else A)
+
+
 def embed(S, n, act):
     F = np.zeros((n, n))
     F[np.ix_(act, act)] = S
@@ -328,7 +333,10 @@ def gen_params(rng, ctx_thorough, big=False):
         nnull = 1
     else:
         nnull = rng.randint(1, max(1, n - 3))
-    return dict(kind='random', seed=rng.randrange(2 ** 31), n=n, nnull=nnull, num=rng.randint(1, 25),
+    nact = n - nnull
+    num = rng.randint(1, 25) if rng.random() < 0.4 else rng.randint(1, max(1, min(25, nact - 2)))
+    return dict(kind='random', seed=rng.randrange(2 ** 31), n=n, nnull=nnull, num=num,
+                fmt=rng.choice(['csr', 'csr', 'coo', 'csc']),
                 gkind=rng.choice(['negdef', 'negdef', 'indef', 'semidef']),
                 target=(10 ** rng.uniform(0.08, 2)) if rng.random() < 0.85 else (10 ** rng.uniform(-1.5, -0.05)),
                 scale=rng.choice([0.25, 0.5, 0.8, 2.0, 3.0]))
@@ -347,7 +355,7 @@ def build_random(p):
     if len(neg):
         lam_min = -1. / neg.min()
         Ga = Ga * (lam_min / p['target'])
-    return csr_matrix(embed(Ka, n, act)), csr_matrix(embed(Ga, n, act)), act
+    return conv(embed(Ka, n, act), p.get('fmt', 'csr')), conv(embed(Ga, n, act), p.get('fmt', 'csr')), act
 
 
 PANEL_MODELS = ['plate_clt_donnell_bardell', 'plate_clt_donnell_bardell_w', 'cpanel_clt_donnell_bardell',
@@ -393,9 +401,11 @@ def build(p):
 def run_lb(K, KG, num, sparse, tracer=None):
     """-> (outcome, calls); outcome = ('ok', eigvals, eigvecs) | ('exc', exception)"""
     import compmech.analysis.linear_buckling as L
+    import warnings
     with Recorder([(L, 'eigsh', 'eigsh'), (L, 'eigh', 'eigh')]) as rec:
         try:
-            with np.errstate(all='ignore'):
+            with np.errstate(all='ignore'), warnings.catch_warnings():
+                warnings.simplefilter('ignore')
                 if tracer is not None:
                     with tracer:
                         ev, evec = L.lb(K, KG, sparse_solver=sparse, silent=True, num_eigvalues=num)
@@ -410,11 +420,13 @@ def run_lb(K, KG, num, sparse, tracer=None):
 def run_panel_lb(p, num, sparse):
     """Panel.lb (second copy of the glue, k = num_eigvalues); -> (outcome, calls, K, KG)"""
     import compmech.panel._panel as P
+    import warnings
     pn = make_panel(p)
     pn.num_eigvalues = num
     with Recorder([(P, 'eigsh', 'eigsh'), (scipy.linalg, 'eigh', 'eigh')]) as rec:
         try:
-            with np.errstate(all='ignore'):
+            with np.errstate(all='ignore'), warnings.catch_warnings():
+                warnings.simplefilter('ignore')
                 pn.lb(sparse_solver=sparse, silent=True)
             outcome = ('ok', np.asarray(pn.eigvals), np.asarray(pn.eigvecs))
         except Exception as ex:
@@ -440,7 +452,7 @@ def model_line(n, num, kmin, sparse, K, first, second):
 def compare_lb(rep, outcome, calls, K, KG, n):
     """None if model and implementation agree"""
     m = parse_reply(rep)
-    d = compare_requests(m['reqs'], calls, [('KG', KG), ('K', K)], n)
+    d = compare_requests(m['reqs'], calls, [('KG', csr_matrix(KG)), ('K', csr_matrix(K))], n)
     if d:
         return d
     if not m['ok']:
@@ -490,8 +502,8 @@ def classify_exception(ex, calls, n, num, nred, kmin=True):
 
 def exact_spectrum(K, KG, act):
     """all multipliers of the pencil on the active amplitudes (dense LAPACK), positive ones ascending"""
-    Ka = K[act, :][:, act].toarray()
-    Ga = KG[act, :][:, act].toarray()
+    Ka = csr_matrix(K)[act, :][:, act].toarray()
+    Ga = csr_matrix(KG)[act, :][:, act].toarray()
     mu = scipy.linalg.eigh(Ga, Ka, eigvals_only=True)
     tiny = 1e-10 * max(np.abs(mu).max(), 1e-300)
     pos = np.sort(-1. / mu[mu < -tiny])
@@ -524,6 +536,7 @@ def predicates(K, KG, act, num, outcome, calls, spec, n, kmin=True):
     bad = []
     info = dict(pairs=0, hyp=False)
     nred = len(act)
+    K, KG = csr_matrix(K), csr_matrix(KG)
     if outcome[0] == 'exc':
         ident = classify_exception(outcome[1], calls, n, num, nred, kmin)
         if ident == 'solver':
@@ -644,8 +657,9 @@ def evaluate(p, runs):
             base = [x for x in ok if x['tag'] == 'lb' and x['sparse'] == r['sparse']]
             if base:
                 sp = (spec[0] * r['factor'], spec[1] / r['factor'])
-                # the scaled problem must itself be sub-critical for the order clause to apply to both
-                if len(sp[1]) and sp[1][0] > 1 + 1e-6:
+                # both the original and the scaled reference load must be sub-critical: only then do both runs
+                # return the smallest positive multipliers (otherwise they return those nearest to 1)
+                if len(sp[1]) and sp[1][0] > 1 + 1e-6 and spec[1][0] > 1 + 1e-6:
                     t = agree(base[0]['outcome'][1] / r['factor'], r['outcome'][1], sp,
                               'scaling the reference load by %g does not divide the multipliers by it' % r['factor'])
                     if t:
@@ -674,12 +688,12 @@ def correspondence(ctx):
     import compmech.analysis.linear_buckling as L
     import compmech.sparse as S
     rng = ctx.rng
-    problems = list(CORPUS)
-    for _ in range(ctx.scale(45, 500)):
+    problems = [dict(p) for p in CORPUS]
+    for _ in range(ctx.scale(110, 1200)):
         problems.append(gen_params(rng, ctx.thorough()))
-    for _ in range(ctx.scale(8, 60)):
+    for _ in range(ctx.scale(14, 100)):
         problems.append(gen_panel_params(rng))
-    for _ in range(ctx.scale(1, 14)):
+    for _ in range(ctx.scale(3, 20)):
         problems.append(gen_params(rng, ctx.thorough(), big=True))
     tracer = LineTracer([L.lb, S.remove_null_cols])
     dist = dict(problems=len(problems), runs=0, sparse=0, dense=0, with_null=0, exceptions={}, fallback=0,
